@@ -459,15 +459,19 @@ func (c *Client) recv(keepaliveQuit chan<- struct{}, keepaliveDone <-chan struct
 			keepaliveStopped = true
 			close(keepaliveQuit)
 			close(sessionOver)
-			timeout := time.After(time.Duration(c.config.ConnectTimeout) * time.Second)
+			// One time limit for both waits (a timer fires once: when it ended the first wait, there is
+			// no second one).
+			timeout := time.NewTimer(time.Duration(c.config.ConnectTimeout) * time.Second)
+			defer timeout.Stop()
 			select {
 			case <-keepaliveDone:
-			case <-timeout:
+			case <-timeout.C:
+				return
 			}
 			if answered != nil {
 				select {
 				case <-answered:
-				case <-timeout:
+				case <-timeout.C:
 				}
 			}
 		}
